@@ -198,7 +198,7 @@ func main() {
 		}
 	}
 	// Fill / Repeat for every length (the exponential copy crosses several doublings)
-	for n := 0; n <= ev.Pick(r, 70, 600); n++ {
+	for n := 0; n <= ev.Pick(r, 1100, 4200); n++ {
 		for _, sp := range []int{0, 3} {
 			s, b := mk(n, sp, 100)
 			e.Input(n > 1)
@@ -227,7 +227,91 @@ func main() {
 			}
 		}
 	}
-	e.Finish(fmt.Sprintf("every length 0..%d x spare capacity %v (hidden region pre-filled with garbage) x every valid index / inserted length 0..%d / removal length; Fill/Repeat every length; Concat every length pair incl. nil; position-tagged elements; non-trivial = the call moves or writes at least one element next to others", maxLen, spares, maxIns))
+	// Large-size families: the same splice model at lengths around every power of two up to
+	// 1025 (append growth, memmove and exponential-copy thresholds), a few positions each.
+	fam := 0
+	for _, n := range []int{15, 16, 17, 31, 32, 33, 63, 64, 65, 127, 128, 129, 255, 256, 257, 511, 512, 513, 1000, 1023, 1024, 1025} {
+		for _, sp := range []int{0, 1, n / 2, n} {
+			check := func(fn string, got, want []int, rp map[string]any) {
+				e.Call()
+				fam++
+				if !eq(got, want) {
+					e.Fail(fn+"|contents", rp, "%s on length %d spare %d: result differs from the splice model (first 8: %v)", fn, n, sp, head(got))
+				}
+			}
+			for _, i := range []int{0, 1, n / 3, n / 2, n - 1, n} {
+				s, _ := mk(n, sp, 100)
+				want := splice(s, i, 0, []int{777})
+				slices.Insert(&s, i, 777)
+				check("Insert", s, want, map[string]any{"fn": "Insert", "len": n, "spare": sp, "index": i})
+				for _, k := range []int{1, 2, n / 2, n + 1} {
+					s, _ := mk(n, sp, 100)
+					vals, _ := mk(k, 0, 50000)
+					want := splice(s, i, 0, vals)
+					slices.InsertSlice(&s, i, vals)
+					check("InsertSlice", s, want, map[string]any{"fn": "InsertSlice", "len": n, "spare": sp, "index": i, "inserted": k})
+				}
+				if i < n {
+					s, _ := mk(n, sp, 100)
+					want := splice(s, i, 1, nil)
+					slices.Remove(&s, i)
+					check("Remove", s, want, map[string]any{"fn": "Remove", "len": n, "spare": sp, "index": i})
+				}
+				for _, l := range []int{1, n / 4, n - i} {
+					if i+l > n {
+						continue
+					}
+					s, _ := mk(n, sp, 100)
+					want := splice(s, i, l, nil)
+					slices.RemoveSlice(&s, i, l)
+					check("RemoveSlice", s, want, map[string]any{"fn": "RemoveSlice", "len": n, "spare": sp, "index": i, "length": l})
+				}
+			}
+			{
+				s, b := mk(n, sp, 100)
+				want := make([]int, n)
+				for i := range s {
+					want[n-1-i] = s[i]
+				}
+				slices.Reverse(s)
+				check("Reverse", s, want, map[string]any{"fn": "Reverse", "len": n})
+				checkHidden(e, "Reverse", b, n)
+				s2, b2 := mk(n, sp, 100)
+				orig := append([]int{}, s2...)
+				c := slices.Clone(s2)
+				check("Clone", c, orig, map[string]any{"fn": "Clone", "len": n})
+				scribble(c)
+				check("Clone|shares-memory", s2, orig, map[string]any{"fn": "Clone", "len": n})
+				checkHidden(e, "Clone", b2, n)
+				for _, g := range []int{1, sp, n} {
+					s3, _ := mk(n, sp, 100)
+					out := slices.Grow(s3, g)
+					check("Grow", out, append(append([]int{}, orig...), make([]int, g)...), map[string]any{"fn": "Grow", "len": n, "spare": sp, "n": g})
+				}
+				for _, m := range []int{0, 1, n / 2, n} {
+					a, ab := mk(n, sp, 100)
+					bb, _ := mk(m, 1, 300000)
+					ao, bo := append([]int{}, a...), append([]int{}, bb...)
+					c := slices.Concat(a, bb)
+					check("Concat", c, append(append([]int{}, ao...), bo...), map[string]any{"fn": "Concat", "len_a": n, "spare_a": sp, "len_b": m})
+					scribble(c)
+					if !eq(a, ao) || !eq(bb, bo) {
+						e.Fail("Concat|shares-memory", map[string]any{"fn": "Concat", "len_a": n, "len_b": m}, "writing to Concat's result changed an input (lengths %d,%d)", n, m)
+					}
+					checkHidden(e, "Concat", ab, n)
+				}
+			}
+		}
+	}
+	r.Set("large_size_family_calls", fam)
+	e.Finish(fmt.Sprintf("every length 0..%d x spare capacity %v (hidden region pre-filled with garbage) x every valid index / inserted length 0..%d / removal length; Fill/Repeat every length; Concat every length pair incl. nil; position-tagged elements; plus large-size families at lengths around every power of two up to 1025; non-trivial = the call moves or writes at least one element next to others", maxLen, spares, maxIns))
+}
+
+func head(s []int) []int {
+	if len(s) > 8 {
+		return s[:8]
+	}
+	return s
 }
 
 func eq(a, b []int) bool {
